@@ -52,7 +52,7 @@ pub fn property() -> Property {
     scenarios: &[Scenario {
       id: 0,
       name: "fault plan, then fault-free rounds to a fixpoint",
-      quick: 250,
+      quick: 1_200,
       thorough: 30_000,
       max_len: 500,
       max_threads: 0,
